@@ -158,7 +158,7 @@ PROPS = {
         "pf": True,
         "n": {"quick": 220, "thorough": 6000},
         "compare": "member",
-        "cone": ["Bytes", "Regex", "Generated", "Channel", "Network", "Replay", "SessionLemmas", "Netconf", "NcSession", "NcSessionLemmas", "NcSegLemmas", "NcExtraLemmas", "DecideLang", "GeneratedSkel", "DecideGT", "InteractiveSrcDefs", "SendInputSrc", "BytesLemmas", "ChanTrace", "ChanTraceLemmas", "PlatformTypes", "Session"],
+        "cone": ["Bytes", "Regex", "Generated", "Channel", "Network", "Replay", "SessionLemmas", "Netconf", "NcSession", "NcSessionLemmas", "NcSegLemmas", "NcExtraLemmas", "DecideLang", "GeneratedSkel", "DecideGT", "InteractiveSrcDefs", "SendInputSrc", "BytesLemmas", "ChanTrace", "ChanTraceLemmas", "PlatformTypes", "Session", "RpcSrc"],
         "rx": True,
         "rule": "CLI sessions (generic SendCommand / GetPrompt / SendInteractive, network SendCommand with an implicit privilege change, AcquirePriv) "
                 "with the device going silent after byte k of the exchange: k from a dry run of the same case, every k of one small exchange "
@@ -179,7 +179,7 @@ PROPS = {
         "pf": True,
         "n": {"quick": 220, "thorough": 6000},
         "compare": "member",
-        "cone": ["Bytes", "Regex", "Generated", "Channel", "Network", "Replay", "SessionLemmas", "Netconf", "NcSession", "NcSessionLemmas", "NcSegLemmas", "NcExtraLemmas", "DecideLang", "GeneratedSkel", "InteractiveSrcDefs", "SendInputSrc", "BytesLemmas", "ChanTrace", "ChanTraceLemmas", "ChannelLemmas", "PlatformTypes", "Session"],
+        "cone": ["Bytes", "Regex", "Generated", "Channel", "Network", "Replay", "SessionLemmas", "Netconf", "NcSession", "NcSessionLemmas", "NcSegLemmas", "NcExtraLemmas", "DecideLang", "GeneratedSkel", "InteractiveSrcDefs", "SendInputSrc", "BytesLemmas", "ChanTrace", "ChanTraceLemmas", "ChannelLemmas", "PlatformTypes", "Session", "RpcSrc"],
         "rx": True,
         "rule": "the same CLI sessions with the transport reporting end-of-stream / a persistent read error after byte k, or failing a write; the "
                 "model prints every legal outcome of the race between the loss and the operation's consumption of already-queued chunks (the "
@@ -231,7 +231,7 @@ PROPS = {
     },
     "C08": {
         "n": {"quick": 120, "thorough": 5000},
-        "cone": ["Bytes", "BytesLemmas", "Regex", "Generated", "Netconf", "NetconfLemmas", "NcSession", "NcSessionLemmas", "NcSegLemmas", "NcExtraLemmas", "Channel", "PlatformTypes", "DecideLang", "GeneratedSkel", "NcStoreSrc"],
+        "cone": ["Bytes", "BytesLemmas", "Regex", "Generated", "Netconf", "NetconfLemmas", "NcSession", "NcSessionLemmas", "NcSegLemmas", "NcExtraLemmas", "Channel", "PlatformTypes", "DecideLang", "GeneratedSkel", "NcStoreSrc", "RpcSrc"],
         "rx": True,
         "rule": NC_RULE + " Histories of 1-25 RPCs with 60 ms timeouts and late replies; non-trivial = more than one request.",
         "level_text": "C08_reply_never_lost / _message_any_split: for any cut of a reply into reads (no boundary making a proper prefix look complete) the call carrying its message-id returns it, other ids' entries untouched. Theorems C08_ids / _own_reply / _own_request / _complete_message_filed / _incomplete_kept / _late_reply_harmless / _no_panic over the "
